@@ -27,7 +27,8 @@
    (2) any other path (the driver applies single mutations to built paths): if it cannot be
        built from ANY root / repository / components (Parses = {}) it must be rejected, i.e. not
        (ParsePath succeeds and the extractors the storage driver applies to the reported kind
-       all succeed); if it can, the answers must be those of one way to build it (MutatedOK).
+       all succeed); if it can, the answers must be those of one way to build it (MutatedOK;
+       when every such way needs a repository containing a reserved keyword, rejection is fine too).
        The code is deliberately root-agnostic ("^.+/"), so for mutated paths the root is any
        non-empty prefix and a repository is any non-empty segment sequence.                  *)
 EXTENDS Sequences, FiniteSets, Integers
@@ -149,8 +150,14 @@ Accepted(r, p) ==
 
 \* (1) a path built from components c
 BuiltOK(r, c) == Agrees(r, c, TRUE)
-\* (2) any other path
-MutatedOK(r, p) == IF Parses(p) = {} THEN ~Accepted(r, p) ELSE \E c \in Parses(p) : Agrees(r, c, FALSE)
+\* (2) any other path.  If it can be built from components docker could have produced (no reserved keyword
+\* inside the repository) the answers must be those of one way to build it.  If every way to build it needs a
+\* repository that contains a reserved keyword, rejecting it is as good as answering for one of those ways.
+\* If it cannot be built at all it must be rejected.
+Plain(c) == \A k \in 1..Len(c.repo) : c.repo[k] \notin Reserved
+MutatedOK(r, p) ==
+  IF \E c \in Parses(p) : Plain(c) THEN \E c \in Parses(p) : Agrees(r, c, FALSE)
+  ELSE ~Accepted(r, p) \/ \E c \in Parses(p) : Agrees(r, c, FALSE)
 
 ----------------------------------------------------------------------------
 (* Design model: the case space (built paths and their single mutations) and the grammar lemmas *)
